@@ -227,7 +227,7 @@ CHECKS = {
         "test": "TestC08", "level": "fault_enumeration", "engine": "fault",
         "technique": "fault injection at generated (operation kind, file type, k-th occurrence) positions over generated workloads, subset-solver and per-key admissible-value oracles (rapid)",
         "quick": {"shards": 16, "n": 150, "timeout": 900},
-        "thorough": {"shards": 16, "n": 6000, "timeout": 3400},
+        "thorough": {"shards": 16, "n": 4000, "timeout": 3400},
         "floor": {"quick": 500, "thorough": 15000},
         "replay_runs": 5,
         "rule": "rapid draws a workload (writes with Sync mix, reads, CompactRange, reopen, explicit transactions, oversized batches) and a plan of 1-3 faults (kind in create/open/read/write(short)/sync/close/remove/rename/setmeta x file type journal/table/manifest/any x k-th occurrence x repeat 1,2,5 or until healed), armed and healed at drawn steps. While running, every Get must return an error, or a value that is the effect of the last successful write to the key or of a later failed write. After healing (quiescent) and again after close+reopen the full scan must equal apply(S) with all successful writes in S and failed writes optional (subset solver). Continued use is checked with the full model oracle. A quarter of the cases then alter one byte of a table data block at rest: every read returns the stored value or an error. Calls that do not return within 25 s are counted inconclusive here (C09 decides them). "
@@ -240,7 +240,7 @@ CHECKS = {
         "test": "TestC09", "level": "exploration", "engine": "fault",
         "technique": "fault injection over generated workloads with a watchdog: bounded responsiveness after the injected failures stop, confirmed by a stable-blocked-state test on two goroutine dumps (rapid)",
         "quick": {"shards": 12, "n": 80, "timeout": 1200, "extra": [{"test": "TestC09W", "n": 120, "shards": 6}]},
-        "thorough": {"shards": 12, "n": 7000, "timeout": 3400, "extra": [{"test": "TestC09W", "n": 16000, "shards": 6}]},
+        "thorough": {"shards": 12, "n": 4000, "timeout": 3400, "extra": [{"test": "TestC09W", "n": 16000, "shards": 6}]},
         "floor": {"quick": 300, "thorough": 8000},
         "replay_runs": 2,
         "replay_timeout": 600,
